@@ -28,6 +28,9 @@ type faultSpec struct {
 	BoolValued bool
 	// Inner designates the sub-expression that actually fails (default: the root).
 	Inner func(root *dsl.Expr) *dsl.Expr
+	// Places, if set, restricts an expression fault to these placements (the construct is
+	// only faulty there).
+	Places []string
 }
 
 func i(v int64) *dsl.Expr { return dsl.Int(v) }
@@ -66,6 +69,9 @@ var faultCatalogue = []faultSpec{
 	{Name: "index-scalar", Cite: "may", Expr: func() *dsl.Expr { return dsl.Index("scalar", i(0)) }},
 	{Name: "index-missing-key-variable", Cite: "may", Expr: func() *dsl.Expr { return dsl.Index("m", dsl.Var("nokey")) }},
 	{Name: "index-through-nil-pointer", Cite: "may", Expr: func() *dsl.Expr { return dsl.Index("nilsl", i(0)) }},
+	// a value read from an unexported field can be computed with, stored and passed on (it is
+	// converted on the way), but it cannot be returned as it is: reflect refuses to hand it out
+	{Name: "unexported-field-value-leaves-the-rule", Cite: "may", Expr: func() *dsl.Expr { return dsl.Var("O.hid") }, Places: []string{"return"}},
 	{Name: "call-missing-function", Cite: "must", OwnRecover: true, Expr: func() *dsl.Expr { return dsl.Call("nofunc", i(1)) }},
 	{Name: "call-missing-function-no-arguments", Cite: "must", OwnRecover: true, Expr: func() *dsl.Expr { return dsl.Call("nofunc0") }},
 	{Name: "call-missing-method-with-argument", Cite: "must", OwnRecover: true, Expr: func() *dsl.Expr { return dsl.Call("O.Nope", i(1)) }},
@@ -204,6 +210,14 @@ func (fp *FaultProgram) feasible() bool {
 		return true
 	}
 	if (pl == "stmt-call" || pl == "conc-stmt-call") && s.Expr().K != dsl.KCall {
+		return false
+	}
+	if len(s.Places) > 0 {
+		for _, p := range s.Places {
+			if p == pl {
+				return true
+			}
+		}
 		return false
 	}
 	return true
@@ -437,6 +451,7 @@ type FObj struct {
 	V     int64
 	In    *FObj
 	NilIn *FObj
+	hid   int64 // unexported: readable by name through reflection, but its value cannot leave the rule
 }
 
 func (o *FObj) Get() int64        { return o.V }
@@ -457,7 +472,7 @@ func faultInject(l *obs.Log) map[string]interface{} {
 		"emptysl": []int64{}, "onesl": []int64{7},
 		"scalar": int64(9), "arrv": [3]int64{1, 2, 3}, "pint": &pi, "pstr": &ps,
 		"uz": uint64(0), "big": int64(50), "neg": int64(-3),
-		"O": &FObj{V: 1, In: &FObj{V: 2}},
+		"O": &FObj{V: 1, In: &FObj{V: 2}, hid: 5},
 		"ok":   func(n int64) int64 { return n },
 		"two":  func(a, b int64) int64 { return a + b },
 		"boom": func() int64 { panic("injected function panic") },
